@@ -101,6 +101,13 @@ MUTATIONS = {
         old='            if get_terminal_name_version()[0] != "konsole":\n                # To clear directly',
         new='            if get_terminal_name_version()[0] == "kitty":\n                # To clear directly',
     ),
+    # ---- needs a pending terminal resize (urwid drops the frame), then the SAME canvas painted --------
+    "c18-no-bookkeeping-while-resized": dict(
+        file=FILE, props=["C18"], expect="draw_screen:composite:ghost",
+        old="                self._ti_screen_canv = canvas\n                self._ti_clear_images()\n",
+        new="                self._ti_screen_canv = canvas\n                if not self._resized:\n"
+            "                    self._ti_clear_images()\n",
+    ),
     # DESIGN.md must-catch
     'c18-cviews-without-row-col': dict(
         file=FILE, props=["C18"],
